@@ -1,6 +1,7 @@
 import CelmaVerif.Lemmas.Spelling
 import CelmaVerif.Lemmas.RulesComplete
 import CelmaVerif.Lemmas.RulesDest
+import CelmaVerif.Lemmas.RulesLevel
 /-
   C01 — command-line values reach their typed destinations, whatever the spelling.
 
@@ -9,12 +10,13 @@ import CelmaVerif.Lemmas.RulesDest
   reading of the declared rules; `denote` (Lemmas/RulesDest.lean) is the closed form of a
   destination in terms of the argument's own uses.
 
-  STAGE / partial: `Spells` covers one word group per use — `-c`, `--name` (exact or any
-  abbreviation that resolves), `-c v`, `--name v`, `--name=v`, `-cv`, free values behind a
-  multi-value argument.  Flags grouped behind one dash (`-abc`), value-less uses of
-  optional-value arguments (`-v` for a LevelCounter) and the `--` separator are modelled and covered
-  by the differential run but not yet by `Spells`; the theorems below are named `_partial` for that
-  reason.  Floating-point destinations are outside the modelled fragment.
+  STAGE / partial: `Spells` covers `-c`, `--name` (exact or any abbreviation that resolves), `-c v`,
+  `--name v`, `--name=v`, `-cv`, flags grouped behind one dash (`-abc`), value-less uses of
+  optional-value arguments (`-v`, `--verbose` for a LevelCounter, when no value follows) and free
+  values behind a multi-value argument.  Not yet in `Spells` (modelled and covered by the
+  differential run only): a flag group closed by a value-taking key (`-abk5`, `-abk 5`) and the `--`
+  separator in front of dash-leading values; the theorems that depend on `Spells` are named
+  `_partial` for that reason.  Floating-point destinations are outside the modelled fragment.
 -/
 namespace CelmaVerif.Props.C01
 open CelmaVerif CelmaVerif.ProgArgs CelmaVerif.Keys
@@ -29,8 +31,8 @@ theorem C01_spelling_invariance_partial (cfg : Cfg) (h : HState) (us : List Use)
   rw [spells_eval cfg h prog₁ s1, spells_eval cfg h prog₂ s2]
 
 /-- **Values reach their destinations.**  For a well-formed configuration, an abstract command line
-    that obeys the declared rules (no deprecated argument, no LevelCounter argument — stage) and any
-    covered spelling of it: evaluation returns normally, and afterwards every destination holds
+    that obeys the declared rules (no deprecated argument; LevelCounter values obey the stateful
+    increment/assignment rule `LevelValuesOk`) and any covered spelling of it: evaluation returns normally, and afterwards every destination holds
     `denote` of its own values: not used ⇒ the previous value; flag ⇒ the value to set; int ⇒ the
     last value converted; string ⇒ the last value; list ⇒ previous content followed by all elements
     given, in order. -/
@@ -38,12 +40,13 @@ theorem C01_values_reach_destinations_partial (cfg : Cfg) (wf : cfg.WellFormed) 
     (hin : cfg.args.length ≤ inits.length) (us : List Use) (ws : List Word) (prog : Word)
     (sp : Spells cfg none us ws) (ob : Obeys cfg inits us)
     (notDeprecated : ∀ u ∈ us, ∀ d, cfg.args[u.arg]? = some d → d.deprecated = false)
-    (noLevel : ∀ u ∈ us, ∀ d, cfg.args[u.arg]? = some d → d.kind ≠ .level) :
+    (levels : ∀ (i : Nat) (d : ArgDef) (v : DVal), cfg.args[i]? = some d → d.kind = .level →
+      inits[i]? = some v → LevelValuesOk d (levelOf v) false false (valsOf i us)) :
     ∃ hf, evalArguments cfg (cfg.initState inits) {} (prog :: ws) = .ok hf ∧
       ∀ (i : Nat) (d : ArgDef) (v : DVal), cfg.args[i]? = some d → inits[i]? = some v →
         (d.kind = .vecInt → ∃ l, v = .vec l) →
         ∃ st, hf.args[i]? = some st ∧ st.dest = denote d v (valsOf i us) := by
-  obtain ⟨hf, he⟩ := rules_complete_partial wf hin ob notDeprecated noLevel
+  obtain ⟨hf, he⟩ := rules_complete wf hin ob notDeprecated levels
   have hl : (cfg.initState inits).lastArg = none := rfl
   refine ⟨hf, ?_, ?_⟩
   · rw [spells_eval cfg (cfg.initState inits) prog (by rw [hl]; exact sp)]; exact he
@@ -92,6 +95,19 @@ open Ex in
 example : Spells cfg none [⟨0, "7".toList, true⟩, ⟨1, [], true⟩] ["-a7".toList, "-f".toList] := by
   refine Spells.shortGlued (c := 'a') (v := "7".toList) (d := aArg) (by decide) (by decide) (by rfl) (by decide) ?_
   exact Spells.shortFlag (c := 'f') (d := fArg) (by decide) (by rfl) (by decide) (Spells.nil _)
+
+open Ex in
+example : Spells { args := [fArg, { fArg with key := ⟨some 'g', []⟩ }] } none [⟨0, [], true⟩, ⟨1, [], true⟩] ["-fg".toList] := by
+  have := Spells.flagGroup (cfg := { args := [fArg, { fArg with key := ⟨some 'g', []⟩ }] }) (l := none)
+    (fs := [('f', 0, fArg), ('g', 1, { fArg with key := ⟨some 'g', []⟩ })]) (last := 1) (us := []) (ws := [])
+    (by
+      intro f hf
+      simp only [List.mem_cons, List.mem_nil_iff, or_false] at hf
+      rcases hf with rfl | rfl
+      · exact ⟨by decide, by rfl, by decide⟩
+      · exact ⟨by decide, by rfl, by decide⟩)
+    (by rfl) (Spells.nil _)
+  simpa using this
 
 open Ex in
 example : show_ (evalUses cfg (cfg.initState inits) [⟨0, "7".toList, true⟩, ⟨1, [], true⟩])
